@@ -9,12 +9,741 @@ macro_rules! core_ops3_impl {
             #[allow(unused_imports)]
             use super::*;
             use crate::c12::ops::Shape;
+            #[allow(unused_imports)]
+            use poulpy_core::layouts::{
+                GGLWE, GGLWELayout, GGLWEPreparedFactory, GGLWEToGGSWKey, GGLWEToGGSWKeyPreparedFactory, GGSW, GGSWPreparedFactory,
+                GLWEAutomorphismKey, GLWEAutomorphismKeyPreparedFactory, GLWEPlaintext, GLWESwitchingKey, GLWESwitchingKeyLayout,
+                GLWESwitchingKeyPreparedFactory,
+            };
+            #[allow(unused_imports)]
+            use poulpy_core::{
+                GGLWEExternalProduct, GGLWEKeyswitch, GGSWAutomorphism, GGSWExternalProduct, GGSWKeyswitch, GLWEAutomorphism,
+                GLWEAutomorphismKeyAutomorphism, GLWEAutomorphismKeyEncryptSk,
+            };
+            #[allow(unused_imports)]
+            use poulpy_hal::layouts::{FillUniform, WriterTo};
 
-            pub const OPS3: &[&str] = &[];
+            pub const OPS3: &[&str] = &[
+                "gglwe_keyswitch",
+                "gglwe_keyswitch_assign",
+                "gglwe_external_product",
+                "gglwe_external_product_assign",
+                "ggsw_external_product",
+                "ggsw_external_product_assign",
+                "ggsw_keyswitch",
+                "ggsw_keyswitch_assign",
+                "ggsw_automorphism",
+                "ggsw_automorphism_assign",
+                "glwe_automorphism_key_automorphism",
+                "glwe_automorphism_key_automorphism_assign",
+                "glwe_automorphism_assign",
+                "glwe_automorphism_add",
+                "glwe_automorphism_add_assign",
+                "glwe_automorphism_sub",
+                "glwe_automorphism_sub_negate",
+                "glwe_automorphism_sub_assign",
+                "glwe_automorphism_sub_negate_assign",
+                "lwe_keyswitch",
+                "lwe_switching_key_prepare",
+                "glwe_from_lwe",
+                "lwe_to_glwe_key_prepare",
+                "lwe_to_glwe_key_encrypt_sk",
+                "lwe_from_glwe",
+                "lwe_from_glwe_idx0",
+                "glwe_to_lwe_key_prepare",
+                "glwe_to_lwe_key_encrypt_sk",
+                "ggsw_from_gglwe",
+                "ggsw_expand_row",
+                "gglwe_to_ggsw_key_prepare",
+                "gglwe_to_ggsw_key_encrypt_sk",
+                "lwe_encrypt_sk",
+                "lwe_decrypt",
+                "gglwe_encrypt_sk",
+                "glwe_automorphism_key_encrypt_sk",
+                "glwe_automorphism_key_prepare",
+                "gglwe_prepare",
+            ];
+
+            fn gl(n: u32, b: u32, k: u32, rank: u32) -> GLWELayout {
+                GLWELayout {
+                    n: Degree(n),
+                    base2k: Base2K(b),
+                    k: TorusPrecision(k),
+                    rank: Rank(rank),
+                }
+            }
+
+            #[allow(dead_code)]
+            fn skp(c: &Ctx, rank: u32, seed: u64) -> (GLWESecret<Vec<u8>>, GLWESecretPrepared<DeviceBuf<BE>, BE>) {
+                let mut s: GLWESecret<Vec<u8>> = GLWESecret::alloc(Degree(c.n), Rank(rank));
+                s.fill_ternary_prob(0.5, &mut src(seed, 1));
+                let mut p: GLWESecretPrepared<DeviceBuf<BE>, BE> = c.module.glwe_secret_prepared_alloc(Rank(rank));
+                c.module.glwe_secret_prepare(&mut p, &s);
+                (s, p)
+            }
+
+            fn ser<T: WriterTo>(x: &T) -> Vec<u8> {
+                let mut bytes = Vec::new();
+                x.write_to(&mut bytes).unwrap();
+                bytes
+            }
+
+            /// A gadget ciphertext layout (dsize 1) in radix `b` of about `k` bits: (k, size, dnum).
+            fn gadget_ct(b: u32, k: u32, extra: u32) -> (u32, u32, u32) {
+                let k = k.max(b + 1);
+                let size = k.div_ceil(b);
+                (k, size, 1 + extra % size)
+            }
+
+            fn ksk_layout(sh: &Shape, rank_in: u32, rank_out: u32) -> GLWESwitchingKeyLayout {
+                GLWESwitchingKeyLayout {
+                    n: Degree(sh.n),
+                    base2k: Base2K(sh.b_key),
+                    k: TorusPrecision(sh.k_key),
+                    dnum: Dnum(sh.dnum()),
+                    dsize: Dsize(sh.dsize),
+                    rank_in: Rank(rank_in),
+                    rank_out: Rank(rank_out),
+                }
+            }
+
+            fn atk_layout(sh: &Shape, rank: u32) -> GLWEAutomorphismKeyLayout {
+                GLWEAutomorphismKeyLayout {
+                    n: Degree(sh.n),
+                    base2k: Base2K(sh.b_key),
+                    k: TorusPrecision(sh.k_key),
+                    rank: Rank(rank),
+                    dnum: Dnum(sh.dnum()),
+                    dsize: Dsize(sh.dsize),
+                }
+            }
+
+            fn tsk_layout(sh: &Shape, rank: u32) -> GGLWEToGGSWKeyLayout {
+                GGLWEToGGSWKeyLayout {
+                    n: Degree(sh.n),
+                    base2k: Base2K(sh.b_key),
+                    k: TorusPrecision(sh.k_key),
+                    rank: Rank(rank),
+                    dnum: Dnum(sh.dnum()),
+                    dsize: Dsize(sh.dsize),
+                }
+            }
+
+            fn ggsw_key_layout(sh: &Shape, rank: u32) -> GGSWLayout {
+                GGSWLayout {
+                    n: Degree(sh.n),
+                    base2k: Base2K(sh.b_key),
+                    k: TorusPrecision(sh.k_key),
+                    rank: Rank(rank),
+                    dnum: Dnum(sh.dnum()),
+                    dsize: Dsize(sh.dsize),
+                }
+            }
+
+            /// An automorphism key for Galois element `p`, encrypted for real (the element matters).
+            fn atk_real(
+                c: &Ctx,
+                sh: &Shape,
+                rank: u32,
+                p: i64,
+                big: &mut ScratchOwned<BE>,
+            ) -> GLWEAutomorphismKey<Vec<u8>> {
+                let infos = atk_layout(sh, rank);
+                let mut atk: GLWEAutomorphismKey<Vec<u8>> = GLWEAutomorphismKey::alloc_from_infos(&infos);
+                let enc = EncryptionLayout::new_from_default_sigma(infos).unwrap();
+                let (s0, _) = skp(c, rank, sh.seed);
+                c.module
+                    .glwe_automorphism_key_encrypt_sk(&mut atk, p, &s0, &enc, &mut src(sh.seed, 3), &mut src(sh.seed, 4), big.borrow());
+                atk
+            }
 
             #[allow(unused_variables)]
             pub fn core_op3(op: &str, sh: &Shape, w: &Window) -> Option<RunResult> {
-                None
+                if !OPS3.contains(&op) {
+                    return None;
+                }
+                let c = ctx(sh.n, 1);
+                let m = &c.module;
+                let mut big: ScratchOwned<BE> = ScratchOwned::alloc(1 << 22);
+                let r = match op {
+                    "gglwe_keyswitch" | "gglwe_keyswitch_assign" => {
+                        let r0 = 1 + (sh.extra & 1);
+                        // in place: the key maps rank_out -> rank_out
+                        let ksk_infos = ksk_layout(sh, if op == "gglwe_keyswitch" { sh.rank_in } else { sh.rank_out }, sh.rank_out);
+                        let mut ksk: GLWESwitchingKey<Vec<u8>> = GLWESwitchingKey::alloc_from_infos(&ksk_infos);
+                        ksk.fill_uniform(sh.b_key as usize, &mut src(sh.seed, 2));
+                        let mut kp = m.glwe_switching_key_prepared_alloc_from_infos(&ksk);
+                        m.glwe_switching_key_prepare(&mut kp, &ksk, big.borrow());
+                        let (k_a, size_a, dnum_a) = gadget_ct(sh.b_in, sh.k_in, sh.extra >> 1);
+                        if op == "gglwe_keyswitch" {
+                            let a_infos = GGLWELayout {
+                                n: Degree(sh.n),
+                                base2k: Base2K(sh.b_in),
+                                k: TorusPrecision(k_a),
+                                rank_in: Rank(r0),
+                                rank_out: Rank(sh.rank_in),
+                                dnum: Dnum(dnum_a),
+                                dsize: Dsize(1),
+                            };
+                            let (k_r, size_r, _) = gadget_ct(sh.b_in, sh.k_res, 0);
+                            let res_infos = GGLWELayout {
+                                n: Degree(sh.n),
+                                base2k: Base2K(sh.b_in),
+                                k: TorusPrecision(k_r),
+                                rank_in: Rank(r0),
+                                rank_out: Rank(sh.rank_out),
+                                dnum: Dnum(dnum_a.min(size_r)),
+                                dsize: Dsize(1),
+                            };
+                            let mut a: GGLWE<Vec<u8>> = GGLWE::alloc_from_infos(&a_infos);
+                            a.fill_uniform(sh.b_in as usize, &mut src(sh.seed, 6));
+                            let mut res: GGLWE<Vec<u8>> = GGLWE::alloc_from_infos(&res_infos);
+                            let declared = m.gglwe_keyswitch_tmp_bytes(&res_infos, &a_infos, &ksk_infos);
+                            let r = windowed(declared, w, &mut |s| m.gglwe_keyswitch(&mut res, &a, &kp, s));
+                            finish(r, declared, vec![ser(&res)])
+                        } else {
+                            let io = GGLWELayout {
+                                n: Degree(sh.n),
+                                base2k: Base2K(sh.b_in),
+                                k: TorusPrecision(k_a),
+                                rank_in: Rank(r0),
+                                rank_out: Rank(sh.rank_out),
+                                dnum: Dnum(dnum_a),
+                                dsize: Dsize(1),
+                            };
+                            let mut res: GGLWE<Vec<u8>> = GGLWE::alloc_from_infos(&io);
+                            res.fill_uniform(sh.b_in as usize, &mut src(sh.seed, 6));
+                            let declared = m.gglwe_keyswitch_tmp_bytes(&io, &io, &ksk_infos);
+                            let r = windowed(declared, w, &mut |s| m.gglwe_keyswitch_assign(&mut res, &kp, s));
+                            finish(r, declared, vec![ser(&res)])
+                        }
+                    }
+                    "gglwe_external_product"
+                    | "gglwe_external_product_assign"
+                    | "ggsw_external_product"
+                    | "ggsw_external_product_assign" => {
+                        let rank = sh.rank_out;
+                        let r0 = 1 + (sh.extra & 1);
+                        let ggsw_infos = ggsw_key_layout(sh, rank);
+                        let mut ggsw: GGSW<Vec<u8>> = GGSW::alloc_from_infos(&ggsw_infos);
+                        ggsw.fill_uniform(sh.b_key as usize, &mut src(sh.seed, 2));
+                        let mut gp = m.ggsw_prepared_alloc_from_infos(&ggsw);
+                        m.ggsw_prepare(&mut gp, &ggsw, big.borrow());
+                        let (k_a, size_a, dnum_a) = gadget_ct(sh.b_in, sh.k_in, sh.extra >> 1);
+                        let (k_r, size_r, dnum_r) = gadget_ct(sh.b_in, sh.k_res, sh.extra >> 2);
+                        if op.starts_with("gglwe") {
+                            let a_infos = GGLWELayout {
+                                n: Degree(sh.n),
+                                base2k: Base2K(sh.b_in),
+                                k: TorusPrecision(k_a),
+                                rank_in: Rank(r0),
+                                rank_out: Rank(rank),
+                                dnum: Dnum(dnum_a),
+                                dsize: Dsize(1),
+                            };
+                            let res_infos = GGLWELayout {
+                                n: Degree(sh.n),
+                                base2k: Base2K(sh.b_in),
+                                k: TorusPrecision(k_r),
+                                rank_in: Rank(r0),
+                                rank_out: Rank(rank),
+                                // (the op indexes rows of `a` up to res.dnum: more rows than `a` has is not admissible)
+                                dnum: Dnum(dnum_r.min(dnum_a)),
+                                dsize: Dsize(1),
+                            };
+                            let mut a: GGLWE<Vec<u8>> = GGLWE::alloc_from_infos(&a_infos);
+                            a.fill_uniform(sh.b_in as usize, &mut src(sh.seed, 6));
+                            if op == "gglwe_external_product" {
+                                let mut res: GGLWE<Vec<u8>> = GGLWE::alloc_from_infos(&res_infos);
+                                let declared = m.gglwe_external_product_tmp_bytes(&res_infos, &a_infos, &ggsw_infos);
+                                let r = windowed(declared, w, &mut |s| m.gglwe_external_product(&mut res, &a, &gp, s));
+                                finish(r, declared, vec![ser(&res)])
+                            } else {
+                                let declared = m.gglwe_external_product_tmp_bytes(&a_infos, &a_infos, &ggsw_infos);
+                                let r = windowed(declared, w, &mut |s| m.gglwe_external_product_assign(&mut a, &gp, s));
+                                finish(r, declared, vec![ser(&a)])
+                            }
+                        } else {
+                            let a_infos = GGSWLayout {
+                                n: Degree(sh.n),
+                                base2k: Base2K(sh.b_in),
+                                k: TorusPrecision(k_a),
+                                rank: Rank(rank),
+                                dnum: Dnum(dnum_a),
+                                dsize: Dsize(1),
+                            };
+                            let res_infos = GGSWLayout {
+                                n: Degree(sh.n),
+                                base2k: Base2K(sh.b_in),
+                                k: TorusPrecision(k_r),
+                                rank: Rank(rank),
+                                dnum: Dnum(dnum_r),
+                                dsize: Dsize(1),
+                            };
+                            let mut a: GGSW<Vec<u8>> = GGSW::alloc_from_infos(&a_infos);
+                            a.fill_uniform(sh.b_in as usize, &mut src(sh.seed, 6));
+                            if op == "ggsw_external_product" {
+                                let mut res: GGSW<Vec<u8>> = GGSW::alloc_from_infos(&res_infos);
+                                let declared = m.ggsw_external_product_tmp_bytes(&res_infos, &a_infos, &ggsw_infos);
+                                let r = windowed(declared, w, &mut |s| m.ggsw_external_product(&mut res, &a, &gp, s));
+                                finish(r, declared, vec![ser(&res)])
+                            } else {
+                                let declared = m.ggsw_external_product_tmp_bytes(&a_infos, &a_infos, &ggsw_infos);
+                                let r = windowed(declared, w, &mut |s| m.ggsw_external_product_assign(&mut a, &gp, s));
+                                finish(r, declared, vec![ser(&a)])
+                            }
+                        }
+                    }
+                    "ggsw_keyswitch" | "ggsw_keyswitch_assign" | "ggsw_automorphism" | "ggsw_automorphism_assign" => {
+                        let rank = sh.rank_out;
+                        let tsk_infos = tsk_layout(sh, rank);
+                        let mut tsk: GGLWEToGGSWKey<Vec<u8>> = GGLWEToGGSWKey::alloc_from_infos(&tsk_infos);
+                        tsk.fill_uniform(sh.b_key as usize, &mut src(sh.seed, 7));
+                        let mut tp = m.gglwe_to_ggsw_key_prepared_alloc_from_infos(&tsk);
+                        m.gglwe_to_ggsw_key_prepare(&mut tp, &tsk, big.borrow());
+                        let (k_a, size_a, dnum_a) = gadget_ct(sh.b_in, sh.k_in, sh.extra);
+                        let (k_r, size_r, _) = gadget_ct(sh.b_in, sh.k_res, 0);
+                        let a_infos = GGSWLayout {
+                            n: Degree(sh.n),
+                            base2k: Base2K(sh.b_in),
+                            k: TorusPrecision(k_a),
+                            rank: Rank(rank),
+                            dnum: Dnum(dnum_a),
+                            dsize: Dsize(1),
+                        };
+                        let res_infos = GGSWLayout {
+                            n: Degree(sh.n),
+                            base2k: Base2K(sh.b_in),
+                            k: TorusPrecision(k_r),
+                            rank: Rank(rank),
+                            dnum: Dnum(dnum_a.min(size_r)),
+                            dsize: Dsize(1),
+                        };
+                        let mut a: GGSW<Vec<u8>> = GGSW::alloc_from_infos(&a_infos);
+                        a.fill_uniform(sh.b_in as usize, &mut src(sh.seed, 6));
+                        let mut res: GGSW<Vec<u8>> = GGSW::alloc_from_infos(&res_infos);
+                        if op.starts_with("ggsw_keyswitch") {
+                            let ksk_infos = ksk_layout(sh, rank, rank);
+                            let mut ksk: GLWESwitchingKey<Vec<u8>> = GLWESwitchingKey::alloc_from_infos(&ksk_infos);
+                            ksk.fill_uniform(sh.b_key as usize, &mut src(sh.seed, 2));
+                            let mut kp = m.glwe_switching_key_prepared_alloc_from_infos(&ksk);
+                            m.glwe_switching_key_prepare(&mut kp, &ksk, big.borrow());
+                            if op == "ggsw_keyswitch" {
+                                let declared = m.ggsw_keyswitch_tmp_bytes(&res_infos, &a_infos, &ksk_infos, &tsk_infos);
+                                let r = windowed(declared, w, &mut |s| m.ggsw_keyswitch(&mut res, &a, &kp, &tp, s));
+                                finish(r, declared, vec![ser(&res)])
+                            } else {
+                                let declared = m.ggsw_keyswitch_tmp_bytes(&a_infos, &a_infos, &ksk_infos, &tsk_infos);
+                                let r = windowed(declared, w, &mut |s| m.ggsw_keyswitch_assign(&mut a, &kp, &tp, s));
+                                finish(r, declared, vec![ser(&a)])
+                            }
+                        } else {
+                            let atk_infos = atk_layout(sh, rank);
+                            let atk = atk_real(c, sh, rank, 5, &mut big);
+                            let mut ap = m.glwe_automorphism_key_prepared_alloc_from_infos(&atk);
+                            m.glwe_automorphism_key_prepare(&mut ap, &atk, big.borrow());
+                            if op == "ggsw_automorphism" {
+                                let declared = m.ggsw_automorphism_tmp_bytes(&res_infos, &a_infos, &atk_infos, &tsk_infos);
+                                let r = windowed(declared, w, &mut |s| m.ggsw_automorphism(&mut res, &a, &ap, &tp, s));
+                                finish(r, declared, vec![ser(&res)])
+                            } else {
+                                let declared = m.ggsw_automorphism_tmp_bytes(&a_infos, &a_infos, &atk_infos, &tsk_infos);
+                                let r = windowed(declared, w, &mut |s| m.ggsw_automorphism_assign(&mut a, &ap, &tp, s));
+                                finish(r, declared, vec![ser(&a)])
+                            }
+                        }
+                    }
+                    "glwe_automorphism_key_automorphism" | "glwe_automorphism_key_automorphism_assign" => {
+                        let rank = sh.rank_out;
+                        let atk_infos = atk_layout(sh, rank);
+                        let atk = atk_real(c, sh, rank, 5, &mut big);
+                        let mut ap = m.glwe_automorphism_key_prepared_alloc_from_infos(&atk);
+                        m.glwe_automorphism_key_prepare(&mut ap, &atk, big.borrow());
+                        // the key being transformed: radix b_in
+                        let (k_a, size_a, dnum_a) = gadget_ct(sh.b_in, sh.k_in, sh.extra);
+                        let (k_r, size_r, _) = gadget_ct(sh.b_in, sh.k_res, 0);
+                        let a_infos = GLWEAutomorphismKeyLayout {
+                            n: Degree(sh.n),
+                            base2k: Base2K(sh.b_in),
+                            k: TorusPrecision(k_a),
+                            rank: Rank(rank),
+                            dnum: Dnum(dnum_a),
+                            dsize: Dsize(1),
+                        };
+                        let res_infos = GLWEAutomorphismKeyLayout {
+                            n: Degree(sh.n),
+                            base2k: Base2K(sh.b_in),
+                            k: TorusPrecision(k_r),
+                            rank: Rank(rank),
+                            dnum: Dnum(dnum_a.min(size_r)),
+                            dsize: Dsize(1),
+                        };
+                        let mut a: GLWEAutomorphismKey<Vec<u8>> = GLWEAutomorphismKey::alloc_from_infos(&a_infos);
+                        {
+                            let enc = EncryptionLayout::new_from_default_sigma(a_infos).unwrap();
+                            let (s0, _) = skp(c, rank, sh.seed);
+                            m.glwe_automorphism_key_encrypt_sk(&mut a, 3, &s0, &enc, &mut src(sh.seed, 8), &mut src(sh.seed, 9), big.borrow());
+                        }
+                        if op == "glwe_automorphism_key_automorphism" {
+                            let mut res: GLWEAutomorphismKey<Vec<u8>> = GLWEAutomorphismKey::alloc_from_infos(&res_infos);
+                            let declared = m.glwe_automorphism_key_automorphism_tmp_bytes(&res_infos, &a_infos, &atk_infos);
+                            let r = windowed(declared, w, &mut |s| m.glwe_automorphism_key_automorphism(&mut res, &a, &ap, s));
+                            finish(r, declared, vec![ser(&res)])
+                        } else {
+                            let declared = m.glwe_automorphism_key_automorphism_tmp_bytes(&a_infos, &a_infos, &atk_infos);
+                            let r = windowed(declared, w, &mut |s| m.glwe_automorphism_key_automorphism_assign(&mut a, &ap, s));
+                            finish(r, declared, vec![ser(&a)])
+                        }
+                    }
+                    "glwe_automorphism_assign"
+                    | "glwe_automorphism_add"
+                    | "glwe_automorphism_add_assign"
+                    | "glwe_automorphism_sub"
+                    | "glwe_automorphism_sub_negate"
+                    | "glwe_automorphism_sub_assign"
+                    | "glwe_automorphism_sub_negate_assign" => {
+                        let rank = sh.rank_out;
+                        let in_infos = gl(sh.n, sh.b_in, sh.k_in, rank);
+                        let out_infos = gl(sh.n, sh.b_res, sh.k_res, rank);
+                        let atk_infos = atk_layout(sh, rank);
+                        let atk = atk_real(c, sh, rank, 5, &mut big);
+                        let mut ap = m.glwe_automorphism_key_prepared_alloc_from_infos(&atk);
+                        m.glwe_automorphism_key_prepare(&mut ap, &atk, big.borrow());
+                        let mut a: GLWE<Vec<u8>> = GLWE::alloc_from_infos(&in_infos);
+                        a.fill_uniform(sh.b_in as usize, &mut src(sh.seed, 6));
+                        if op.ends_with("_assign") {
+                            let declared = m.glwe_automorphism_tmp_bytes(&in_infos, &in_infos, &atk_infos);
+                            let r = match op {
+                                "glwe_automorphism_assign" => windowed(declared, w, &mut |s| m.glwe_automorphism_assign(&mut a, &ap, s)),
+                                "glwe_automorphism_add_assign" => {
+                                    windowed(declared, w, &mut |s| m.glwe_automorphism_add_assign(&mut a, &ap, s))
+                                }
+                                "glwe_automorphism_sub_assign" => {
+                                    windowed(declared, w, &mut |s| m.glwe_automorphism_sub_assign(&mut a, &ap, s))
+                                }
+                                _ => windowed(declared, w, &mut |s| m.glwe_automorphism_sub_negate_assign(&mut a, &ap, s)),
+                            };
+                            finish(r, declared, vec![a.data().data.clone()])
+                        } else {
+                            // accumulating variants: the receiver holds data already
+                            let mut res: GLWE<Vec<u8>> = GLWE::alloc_from_infos(&out_infos);
+                            res.fill_uniform(sh.b_res as usize, &mut src(sh.seed, 7));
+                            let declared = m.glwe_automorphism_tmp_bytes(&out_infos, &in_infos, &atk_infos);
+                            let r = match op {
+                                "glwe_automorphism_add" => windowed(declared, w, &mut |s| m.glwe_automorphism_add(&mut res, &a, &ap, s)),
+                                "glwe_automorphism_sub" => windowed(declared, w, &mut |s| m.glwe_automorphism_sub(&mut res, &a, &ap, s)),
+                                _ => windowed(declared, w, &mut |s| m.glwe_automorphism_sub_negate(&mut res, &a, &ap, s)),
+                            };
+                            finish(r, declared, vec![res.data().data.clone()])
+                        }
+                    }
+                    _ => return core_op3_b(op, sh, w),
+                };
+                Some(r)
+            }
+
+            /// LWE side: conversions, LWE key switching, LWE encryption / decryption, and the evaluation-key generators.
+            fn core_op3_b(op: &str, sh: &Shape, w: &Window) -> Option<RunResult> {
+                use poulpy_core::layouts::{
+                    GLWEToLWEKey, GLWEToLWEKeyPreparedFactory, LWE, LWELayout, LWEPlaintext, LWESwitchingKey, LWESwitchingKeyLayout,
+                    LWESwitchingKeyPreparedFactory, LWEToGLWEKey, LWEToGLWEKeyLayout, LWEToGLWEKeyPreparedFactory,
+                };
+                use poulpy_core::{
+                    GGLWEEncryptSk, GGLWEToGGSWKeyEncryptSk, GGSWExpandRows, GGSWFromGGLWE, GLWEFromLWE, GLWEToLWESwitchingKeyEncryptSk,
+                    LWEDecrypt, LWEEncryptSk, LWEFromGLWE, LWEKeySwitch, LWEToGLWESwitchingKeyEncryptSk,
+                };
+                let c = ctx(sh.n, 1);
+                let m = &c.module;
+                let mut big: ScratchOwned<BE> = ScratchOwned::alloc(1 << 22);
+                // LWE-side keys have dsize 1: rows cover the input
+                let dnum1 = sh.k_in.div_ceil(sh.b_key).max(1);
+                let n_lwe = sh.n_lwe.min(sh.n).max(1);
+                let r = match op {
+                    "lwe_keyswitch" | "lwe_switching_key_prepare" => {
+                        let n_out = ((sh.n_lwe + 1 + sh.extra) % sh.n).max(1);
+                        let key_infos = LWESwitchingKeyLayout {
+                            n: Degree(sh.n),
+                            base2k: Base2K(sh.b_key),
+                            k: TorusPrecision(sh.k_key),
+                            dnum: Dnum(dnum1),
+                        };
+                        let mut key: LWESwitchingKey<Vec<u8>> = LWESwitchingKey::alloc_from_infos(&key_infos);
+                        key.fill_uniform(sh.b_key as usize, &mut src(sh.seed, 2));
+                        let mut kp = m.lwe_switching_key_prepared_alloc_from_infos(&key);
+                        let a_infos = LWELayout {
+                            n: Degree(n_lwe),
+                            k: TorusPrecision(sh.k_in),
+                            base2k: Base2K(sh.b_in),
+                        };
+                        let res_infos = LWELayout {
+                            n: Degree(n_out),
+                            k: TorusPrecision(sh.k_res),
+                            base2k: Base2K(sh.b_res),
+                        };
+                        let mut a: LWE<Vec<u8>> = LWE::alloc_from_infos(&a_infos);
+                        a.fill_uniform(sh.b_in as usize, &mut src(sh.seed, 6));
+                        let mut res: LWE<Vec<u8>> = LWE::alloc_from_infos(&res_infos);
+                        if op == "lwe_switching_key_prepare" {
+                            let declared = m.lwe_switching_key_prepare_tmp_bytes(&key);
+                            let r = windowed(declared, w, &mut |s| m.lwe_switching_key_prepare(&mut kp, &key, s));
+                            if r.0.is_ok() {
+                                m.lwe_keyswitch(&mut res, &a, &kp, big.borrow());
+                            }
+                            return Some(finish(r, declared, vec![ser(&res)]));
+                        }
+                        m.lwe_switching_key_prepare(&mut kp, &key, big.borrow());
+                        let declared = m.lwe_keyswitch_tmp_bytes(&res_infos, &a_infos, &key_infos);
+                        let r = windowed(declared, w, &mut |s| m.lwe_keyswitch(&mut res, &a, &kp, s));
+                        finish(r, declared, vec![ser(&res)])
+                    }
+                    "glwe_from_lwe" | "lwe_to_glwe_key_prepare" | "lwe_to_glwe_key_encrypt_sk" => {
+                        let key_infos = LWEToGLWEKeyLayout {
+                            n: Degree(sh.n),
+                            base2k: Base2K(sh.b_key),
+                            k: TorusPrecision(sh.k_key),
+                            rank_out: Rank(sh.rank_out),
+                            dnum: Dnum(dnum1),
+                        };
+                        let mut key: LWEToGLWEKey<Vec<u8>> = LWEToGLWEKey::alloc_from_infos(&key_infos);
+                        if op == "lwe_to_glwe_key_encrypt_sk" {
+                            let enc = EncryptionLayout::new_from_default_sigma(key_infos).unwrap();
+                            let mut s_lwe: LWESecret<Vec<u8>> = LWESecret::alloc(Degree(n_lwe));
+                            s_lwe.fill_binary_prob(0.5, &mut src(sh.seed, 1));
+                            let (_s, sp) = skp(c, sh.rank_out, sh.seed);
+                            let declared = m.lwe_to_glwe_key_encrypt_sk_tmp_bytes(&key_infos);
+                            let r = windowed(declared, w, &mut |s| {
+                                m.lwe_to_glwe_key_encrypt_sk(&mut key, &s_lwe, &sp, &enc, &mut src(sh.seed, 3), &mut src(sh.seed, 4), s)
+                            });
+                            return Some(finish(r, declared, vec![ser(&key)]));
+                        }
+                        key.fill_uniform(sh.b_key as usize, &mut src(sh.seed, 2));
+                        let mut kp = m.lwe_to_glwe_key_prepared_alloc_from_infos(&key);
+                        let a_infos = LWELayout {
+                            n: Degree(n_lwe),
+                            k: TorusPrecision(sh.k_in),
+                            base2k: Base2K(sh.b_in),
+                        };
+                        let res_infos = gl(sh.n, sh.b_res, sh.k_res, sh.rank_out);
+                        let mut a: LWE<Vec<u8>> = LWE::alloc_from_infos(&a_infos);
+                        a.fill_uniform(sh.b_in as usize, &mut src(sh.seed, 6));
+                        let mut res: GLWE<Vec<u8>> = GLWE::alloc_from_infos(&res_infos);
+                        if op == "lwe_to_glwe_key_prepare" {
+                            let declared = m.lwe_to_glwe_key_prepare_tmp_bytes(&key);
+                            let r = windowed(declared, w, &mut |s| m.lwe_to_glwe_key_prepare(&mut kp, &key, s));
+                            if r.0.is_ok() {
+                                m.glwe_from_lwe(&mut res, &a, &kp, big.borrow());
+                            }
+                            return Some(finish(r, declared, vec![res.data().data.clone()]));
+                        }
+                        m.lwe_to_glwe_key_prepare(&mut kp, &key, big.borrow());
+                        let declared = m.glwe_from_lwe_tmp_bytes(&res_infos, &a_infos, &key_infos);
+                        let r = windowed(declared, w, &mut |s| m.glwe_from_lwe(&mut res, &a, &kp, s));
+                        finish(r, declared, vec![res.data().data.clone()])
+                    }
+                    "lwe_from_glwe" | "lwe_from_glwe_idx0" | "glwe_to_lwe_key_prepare" | "glwe_to_lwe_key_encrypt_sk" => {
+                        let key_infos = GLWEToLWEKeyLayout {
+                            n: Degree(sh.n),
+                            base2k: Base2K(sh.b_key),
+                            k: TorusPrecision(sh.k_key),
+                            rank_in: Rank(sh.rank_in),
+                            dnum: Dnum(dnum1),
+                        };
+                        let mut key: GLWEToLWEKey<Vec<u8>> = GLWEToLWEKey::alloc_from_infos(&key_infos);
+                        if op == "glwe_to_lwe_key_encrypt_sk" {
+                            let enc = EncryptionLayout::new_from_default_sigma(key_infos).unwrap();
+                            let mut s_lwe: LWESecret<Vec<u8>> = LWESecret::alloc(Degree(n_lwe));
+                            s_lwe.fill_binary_prob(0.5, &mut src(sh.seed, 1));
+                            let (sg, _) = skp(c, sh.rank_in, sh.seed);
+                            let declared = m.glwe_to_lwe_key_encrypt_sk_tmp_bytes(&key_infos);
+                            let r = windowed(declared, w, &mut |s| {
+                                m.glwe_to_lwe_key_encrypt_sk(&mut key, &s_lwe, &sg, &enc, &mut src(sh.seed, 3), &mut src(sh.seed, 4), s)
+                            });
+                            return Some(finish(r, declared, vec![ser(&key)]));
+                        }
+                        key.fill_uniform(sh.b_key as usize, &mut src(sh.seed, 2));
+                        let mut kp = m.glwe_to_lwe_key_prepared_alloc_from_infos(&key);
+                        let a_infos = gl(sh.n, sh.b_in, sh.k_in, sh.rank_in);
+                        let res_infos = LWELayout {
+                            n: Degree(n_lwe),
+                            k: TorusPrecision(sh.k_res),
+                            base2k: Base2K(sh.b_res),
+                        };
+                        let mut a: GLWE<Vec<u8>> = GLWE::alloc_from_infos(&a_infos);
+                        a.fill_uniform(sh.b_in as usize, &mut src(sh.seed, 6));
+                        let mut res: LWE<Vec<u8>> = LWE::alloc_from_infos(&res_infos);
+                        let idx = if op == "lwe_from_glwe_idx0" { 0 } else { 1 + (sh.extra as usize % (sh.n as usize - 1)) };
+                        if op == "glwe_to_lwe_key_prepare" {
+                            let declared = m.glwe_to_lwe_key_prepare_tmp_bytes(&key);
+                            let r = windowed(declared, w, &mut |s| m.glwe_to_lwe_key_prepare(&mut kp, &key, s));
+                            if r.0.is_ok() {
+                                m.lwe_from_glwe(&mut res, &a, idx, &kp, big.borrow());
+                            }
+                            return Some(finish(r, declared, vec![ser(&res)]));
+                        }
+                        m.glwe_to_lwe_key_prepare(&mut kp, &key, big.borrow());
+                        let declared = m.lwe_from_glwe_tmp_bytes(&res_infos, &a_infos, &key_infos);
+                        let r = windowed(declared, w, &mut |s| m.lwe_from_glwe(&mut res, &a, idx, &kp, s));
+                        finish(r, declared, vec![ser(&res)])
+                    }
+                    "ggsw_from_gglwe" | "ggsw_expand_row" | "gglwe_to_ggsw_key_prepare" | "gglwe_to_ggsw_key_encrypt_sk" => {
+                        let rank = sh.rank_out;
+                        let tsk_infos = tsk_layout(sh, rank);
+                        let mut tsk: GGLWEToGGSWKey<Vec<u8>> = GGLWEToGGSWKey::alloc_from_infos(&tsk_infos);
+                        if op == "gglwe_to_ggsw_key_encrypt_sk" {
+                            let enc = EncryptionLayout::new_from_default_sigma(tsk_infos).unwrap();
+                            let (s0, _) = skp(c, rank, sh.seed);
+                            let declared = m.gglwe_to_ggsw_key_encrypt_sk_tmp_bytes(&tsk_infos);
+                            let r = windowed(declared, w, &mut |s| {
+                                m.gglwe_to_ggsw_key_encrypt_sk(&mut tsk, &s0, &enc, &mut src(sh.seed, 3), &mut src(sh.seed, 4), s)
+                            });
+                            return Some(finish(r, declared, vec![ser(&tsk)]));
+                        }
+                        tsk.fill_uniform(sh.b_key as usize, &mut src(sh.seed, 7));
+                        let mut tp = m.gglwe_to_ggsw_key_prepared_alloc_from_infos(&tsk);
+                        let (k_r, size_r, dnum_r) = gadget_ct(sh.b_res, sh.k_res, sh.extra);
+                        let res_infos = GGSWLayout {
+                            n: Degree(sh.n),
+                            base2k: Base2K(sh.b_res),
+                            k: TorusPrecision(k_r),
+                            rank: Rank(rank),
+                            dnum: Dnum(dnum_r),
+                            dsize: Dsize(1),
+                        };
+                        let a_infos = GGLWELayout {
+                            n: Degree(sh.n),
+                            base2k: Base2K(sh.b_res),
+                            k: TorusPrecision(k_r),
+                            rank_in: Rank(1),
+                            rank_out: Rank(rank),
+                            dnum: Dnum(dnum_r),
+                            dsize: Dsize(1),
+                        };
+                        let mut a: GGLWE<Vec<u8>> = GGLWE::alloc_from_infos(&a_infos);
+                        a.fill_uniform(sh.b_res as usize, &mut src(sh.seed, 6));
+                        let mut res: GGSW<Vec<u8>> = GGSW::alloc_from_infos(&res_infos);
+                        if op == "gglwe_to_ggsw_key_prepare" {
+                            let declared = m.gglwe_to_ggsw_key_prepare_tmp_bytes(&tsk);
+                            let r = windowed(declared, w, &mut |s| m.gglwe_to_ggsw_key_prepare(&mut tp, &tsk, s));
+                            if r.0.is_ok() {
+                                m.ggsw_from_gglwe(&mut res, &a, &tp, big.borrow());
+                            }
+                            return Some(finish(r, declared, vec![ser(&res)]));
+                        }
+                        m.gglwe_to_ggsw_key_prepare(&mut tp, &tsk, big.borrow());
+                        if op == "ggsw_from_gglwe" {
+                            let declared = m.ggsw_from_gglwe_tmp_bytes(&res_infos, &tsk_infos);
+                            let r = windowed(declared, w, &mut |s| m.ggsw_from_gglwe(&mut res, &a, &tp, s));
+                            finish(r, declared, vec![ser(&res)])
+                        } else {
+                            res.fill_uniform(sh.b_res as usize, &mut src(sh.seed, 8));
+                            let declared = m.ggsw_expand_rows_tmp_bytes(&res_infos, &tsk_infos);
+                            let r = windowed(declared, w, &mut |s| m.ggsw_expand_row(&mut res, &tp, s));
+                            finish(r, declared, vec![ser(&res)])
+                        }
+                    }
+                    "lwe_encrypt_sk" | "lwe_decrypt" => {
+                        let infos = LWELayout {
+                            n: Degree(n_lwe),
+                            k: TorusPrecision(sh.k_res),
+                            base2k: Base2K(sh.b_res),
+                        };
+                        let mut s_lwe: LWESecret<Vec<u8>> = LWESecret::alloc(Degree(n_lwe));
+                        s_lwe.fill_binary_prob(0.5, &mut src(sh.seed, 1));
+                        let mut pt: LWEPlaintext<Vec<u8>> = LWEPlaintext::alloc_from_infos(&infos);
+                        let mut ct: LWE<Vec<u8>> = LWE::alloc_from_infos(&infos);
+                        if op == "lwe_encrypt_sk" {
+                            pt.data_mut().fill_uniform(sh.b_res as usize, &mut src(sh.seed, 2));
+                            let enc = EncryptionLayout::new_from_default_sigma(infos).unwrap();
+                            let declared = m.lwe_encrypt_sk_tmp_bytes(&infos);
+                            let r = windowed(declared, w, &mut |s| {
+                                m.lwe_encrypt_sk(&mut ct, &pt, &s_lwe, &enc, &mut src(sh.seed, 3), &mut src(sh.seed, 4), s)
+                            });
+                            finish(r, declared, vec![ser(&ct)])
+                        } else {
+                            ct.fill_uniform(sh.b_res as usize, &mut src(sh.seed, 2));
+                            let declared = m.lwe_decrypt_tmp_bytes(&infos);
+                            let r = windowed(declared, w, &mut |s| m.lwe_decrypt(&ct, &mut pt, &s_lwe, s));
+                            finish(r, declared, vec![pt.data().data.clone()])
+                        }
+                    }
+                    "gglwe_encrypt_sk" => {
+                        let infos = GGLWELayout {
+                            n: Degree(sh.n),
+                            base2k: Base2K(sh.b_key),
+                            k: TorusPrecision(sh.k_key),
+                            rank_in: Rank(sh.rank_in),
+                            rank_out: Rank(sh.rank_out),
+                            dnum: Dnum(sh.dnum()),
+                            dsize: Dsize(sh.dsize),
+                        };
+                        let enc = EncryptionLayout::new_from_default_sigma(infos).unwrap();
+                        let (_s, sp) = skp(c, sh.rank_out, sh.seed);
+                        let mut pt: poulpy_hal::layouts::ScalarZnx<Vec<u8>> =
+                            poulpy_hal::layouts::ScalarZnx::alloc(sh.n as usize, sh.rank_in as usize);
+                        pt.fill_uniform(3, &mut src(sh.seed, 2));
+                        let mut ct: GGLWE<Vec<u8>> = GGLWE::alloc_from_infos(&infos);
+                        let declared = m.gglwe_encrypt_sk_tmp_bytes(&infos);
+                        let r = windowed(declared, w, &mut |s| {
+                            m.gglwe_encrypt_sk(&mut ct, &pt, &sp, &enc, &mut src(sh.seed, 3), &mut src(sh.seed, 4), s)
+                        });
+                        finish(r, declared, vec![ser(&ct)])
+                    }
+                    "glwe_automorphism_key_encrypt_sk" | "glwe_automorphism_key_prepare" => {
+                        let rank = sh.rank_out;
+                        let infos = atk_layout(sh, rank);
+                        let p: i64 = [5i64, -1, 3, 25][(sh.extra % 4) as usize];
+                        if op == "glwe_automorphism_key_encrypt_sk" {
+                            let mut atk: GLWEAutomorphismKey<Vec<u8>> = GLWEAutomorphismKey::alloc_from_infos(&infos);
+                            let enc = EncryptionLayout::new_from_default_sigma(infos).unwrap();
+                            let (s0, _) = skp(c, rank, sh.seed);
+                            let declared = m.glwe_automorphism_key_encrypt_sk_tmp_bytes(&infos);
+                            let r = windowed(declared, w, &mut |s| {
+                                m.glwe_automorphism_key_encrypt_sk(&mut atk, p, &s0, &enc, &mut src(sh.seed, 3), &mut src(sh.seed, 4), s)
+                            });
+                            finish(r, declared, vec![ser(&atk)])
+                        } else {
+                            let atk = atk_real(c, sh, rank, p, &mut big);
+                            let mut ap = m.glwe_automorphism_key_prepared_alloc_from_infos(&atk);
+                            let declared = m.glwe_automorphism_key_prepare_tmp_bytes(&atk);
+                            let r = windowed(declared, w, &mut |s| m.glwe_automorphism_key_prepare(&mut ap, &atk, s));
+                            let in_infos = gl(sh.n, sh.b_in, sh.k_in, rank);
+                            let mut a: GLWE<Vec<u8>> = GLWE::alloc_from_infos(&in_infos);
+                            a.fill_uniform(sh.b_in as usize, &mut src(sh.seed, 6));
+                            let mut res: GLWE<Vec<u8>> = GLWE::alloc_from_infos(&gl(sh.n, sh.b_res, sh.k_res, rank));
+                            if r.0.is_ok() {
+                                m.glwe_automorphism(&mut res, &a, &ap, big.borrow());
+                            }
+                            finish(r, declared, vec![res.data().data.clone()])
+                        }
+                    }
+                    "gglwe_prepare" => {
+                        let infos = GGLWELayout {
+                            n: Degree(sh.n),
+                            base2k: Base2K(sh.b_key),
+                            k: TorusPrecision(sh.k_key),
+                            rank_in: Rank(sh.rank_in),
+                            rank_out: Rank(sh.rank_out),
+                            dnum: Dnum(sh.dnum()),
+                            dsize: Dsize(sh.dsize),
+                        };
+                        let mut key: GGLWE<Vec<u8>> = GGLWE::alloc_from_infos(&infos);
+                        key.fill_uniform(sh.b_key as usize, &mut src(sh.seed, 2));
+                        let mut kp = m.gglwe_prepared_alloc_from_infos(&infos);
+                        let declared = m.gglwe_prepare_tmp_bytes(&infos);
+                        let r = windowed(declared, w, &mut |s| m.gglwe_prepare(&mut kp, &key, s));
+                        // observe through a key switch with generous scratch
+                        let mut a: GLWE<Vec<u8>> = GLWE::alloc_from_infos(&gl(sh.n, sh.b_in, sh.k_in, sh.rank_in));
+                        a.fill_uniform(sh.b_in as usize, &mut src(sh.seed, 6));
+                        let mut res: GLWE<Vec<u8>> = GLWE::alloc_from_infos(&gl(sh.n, sh.b_res, sh.k_res, sh.rank_out));
+                        if r.0.is_ok() {
+                            use poulpy_core::GLWEKeyswitch;
+                            m.glwe_keyswitch(&mut res, &a, &kp, big.borrow());
+                        }
+                        finish(r, declared, vec![res.data().data.clone()])
+                    }
+                    _ => return None,
+                };
+                Some(r)
             }
         }
     };
